@@ -271,7 +271,16 @@ func (w *gsWorld) Step() *gsOp {
 		if !gp.attached {
 			op.Kind = "noop"
 		} else {
-			w.send(gp, vPruneRPC(op.Arg, tn))
+			rpc := vPruneRPC(op.Arg, tn)
+			if c.Chance(0.4) {
+				// peer exchange records ride along (whether the node uses them depends on the sender's score; the PRUNE
+				// itself and its backoff count either way)
+				for k, K := 0, c.Range(1, 3); k < K; k++ {
+					id, _, rec := c09Record(c, w.r.n)
+					rpc.Control.Prune[0].Peers = append(rpc.Control.Prune[0].Peers, &pb.PeerInfo{PeerID: []byte(id), SignedPeerRecord: rec})
+				}
+			}
+			w.send(gp, rpc)
 		}
 	case "join":
 		s, err := w.handle(tn).Subscribe()
